@@ -700,6 +700,26 @@ from ufo2ft.constants import USE_PRODUCTION_NAMES as _K_USE  # noqa: E402
 _LIBKEYS = {_K_KEEP: "keep", _K_USE: "use", _K_DONT: "dont"}
 
 
+class _StdNames(Val):
+    """`standardGlyphOrder` (fontTools: the 258 Macintosh standard glyph names) as the contracts see it: symbolically an
+    ARBITRARY set of names (nothing proved here depends on which names are standard; a 258-way case distinction under
+    every quantifier is what made these obligations slow), natively the real list.  (Callable, so that the run-time
+    clause environment keeps it: symbolic-only globals are dropped there.)"""
+
+    def __call__(self):
+        return list(_STD)
+
+    def __contains__(self, x):
+        return x in _STD_SET
+
+    def __iter__(self):
+        return iter(_STD)
+
+
+_STD_SET = frozenset(_STD)
+_STD_SYM = _StdNames(Set(STR), z3.Const("standardGlyphOrder", Set(STR).sort()))
+
+
 def _pplib_get(ex, st, self, args, kwargs, node):
     from pyvc import ops
 
@@ -819,7 +839,7 @@ contract(
     f"{PP}.set_post_table_format",
     props=["C11"],
     params={"otf": Ref("PPFont"), "formatType": REAL},
-    globals={"standardGlyphOrder": list(_STD)},
+    globals={"standardGlyphOrder": _STD_SYM},
     modifies=_POST_FIELDS,
     raises={"NotImplementedError": "formatType != 2.0 and formatType != 3.0"},
     ensures={
@@ -844,7 +864,7 @@ contract(
     name="no-cff",
     props=["C11"],
     params={"otf": Ref("PPFont"), "rename_map": Dict(STR, STR)},
-    globals={"standardGlyphOrder": list(_STD)},
+    globals={"standardGlyphOrder": _STD_SYM},
     modifies=["PPFont.glyphOrder"] + _POST_FIELDS,
     requires=[
         # TTF, or CFF2 whose table has not been decompiled (CFF2 stores no glyph names): no charset to rewrite
